@@ -221,4 +221,5 @@ def run(scn):
 
 
 if __name__ == '__main__':
-    json.dump([run(s) for s in json.load(open(sys.argv[1]))], open(sys.argv[2], 'w'))
+    from _guard import guarded
+    json.dump([guarded(run)(s) for s in json.load(open(sys.argv[1]))], open(sys.argv[2], 'w'))
